@@ -11,7 +11,9 @@
 // the Use calls of the chain)
 // x request paths (incl. every "partial" prefix: the relative prefixes of a mount's ancestor chain
 // with some ancestors dropped, e.g. /b/c and /a/c and /c for /a/b/c) x URL forms x error sources
-// x request paths x URL forms x error sources x EVERY iteration order of the map range in
+// x WHAT THE SELECTED ERROR HANDLER DOES (answers; or FAILS: with a plain error, with the very error it
+// was given, with a *fiber.Error of another 4xx / 5xx code, with an error wrapping the given one or a
+// *fiber.Error, before or after having written a response) x EVERY iteration order of the map range in
 // App.ErrorHandler (owned through the overlay: verifrt.MapOrder + an odometer-driven chooser)
 // (all n! orders while a request consults <=3 owned choices, i.e. <=4 appList entries; beyond that
 // every order with <=2 non-default picks) x <=1 non-default choice in the map ranges of mount.go.
@@ -64,11 +66,56 @@ const (
 	srcFW405         // POST on GET-only routes: the framework's own 405
 	srcTeapot        // route handler returns *fiber.Error with code 418
 	srcPlain         // route handler returns errors.New(...)
-	srcEHFail        // route handler returns *fiber.Error 409 and every injected error handler itself fails
 	nSrc
 )
 
-var srcNames = [nSrc]string{"inner-handler", "root-middleware", "framework-404", "framework-405", "fiber-error-418", "plain-error", "error-handler-fails"}
+var srcNames = [nSrc]string{"inner-handler", "root-middleware", "framework-404", "framework-405", "fiber-error-418", "plain-error"}
+
+// what every injected error handler does with the error it receives
+const (
+	behOK                 = iota // writes its response, returns nil
+	behPlainAfterWrite           // writes its response, then returns errors.New(...)
+	behPlain                     // returns errors.New(...) without writing anything
+	behPassBack                  // "not mine": returns the very error it was given
+	behPassBackAfterWrite        // writes its response, then returns the very error it was given
+	behFiber4xx                  // returns a fresh *fiber.Error with a 4xx code no source uses (451)
+	behFiber5xx                  // returns fiber.ErrBadGateway (502)
+	behWrapGiven                 // returns fmt.Errorf("...: %w", given)
+	behWrapFiber                 // returns fmt.Errorf("...: %w", fiber.ErrServiceUnavailable)
+	nBeh
+)
+
+var behNames = [nBeh]string{"answers", "plain-error-after-writing", "plain-error", "the-error-it-was-given", "the-error-it-was-given-after-writing",
+	"fiber-error-451", "fiber-error-502", "error-wrapping-the-given-one", "error-wrapping-fiber-error-503"}
+
+// scen: one error source x one behaviour of the injected error handlers.
+// full: explored like the answering handler (every iteration order in every program, mount.go deviations);
+// the other failing variants run under the default mount.go order, under every ErrorHandler order in programs
+// with <=2 mounts and under the default order in larger ones (what a handler does with the error is
+// independent of how it was selected; exactly-once delivery is judged in every evaluation all the same).
+type scen struct {
+	src, beh int
+	full     bool
+}
+
+var scens = func() []scen {
+	var out []scen
+	for s := 0; s < nSrc; s++ {
+		out = append(out, scen{s, behOK, true})
+	}
+	out = append(out, scen{srcTeapot, behPlainAfterWrite, true})
+	for b := behPlainAfterWrite; b < nBeh; b++ {
+		for s := 0; s < nSrc; s++ {
+			if s == srcTeapot && b == behPlainAfterWrite {
+				continue
+			}
+			out = append(out, scen{s, b, false})
+		}
+	}
+	return out
+}()
+
+func (sc scen) name() string { return srcNames[sc.src] + " / handler " + behNames[sc.beh] }
 
 const (
 	formOrigin = iota // GET /api/x
@@ -470,6 +517,7 @@ func routedGET(p *program, path string) bool {
 
 type state struct {
 	src           int
+	beh           int
 	got           []int // ids of injected error handlers in call order
 	gotErr        error // error received by the last injected handler
 	raised        error // error object returned by a harness handler (nil: the framework raised it)
@@ -559,12 +607,44 @@ func makeEH(id int) fiber.ErrorHandler {
 	return func(c fiber.Ctx, err error) error {
 		st.got = append(st.got, id)
 		st.gotErr = err
-		_ = c.Status(520 + id).SendString(ehBody(id, err))
-		if st.src == srcEHFail {
+		switch st.beh {
+		case behOK, behPlainAfterWrite, behPassBackAfterWrite:
+			_ = c.Status(520 + id).SendString(ehBody(id, err))
+		}
+		switch st.beh {
+		case behPlainAfterWrite, behPlain:
 			return errors.New("error handler failed")
+		case behPassBack, behPassBackAfterWrite:
+			return err
+		case behFiber4xx:
+			return fiber.NewError(451, "error handler refuses")
+		case behFiber5xx:
+			return fiber.ErrBadGateway
+		case behWrapGiven:
+			return fmt.Errorf("error handler could not render: %w", err)
+		case behWrapFiber:
+			return fmt.Errorf("error handler could not render: %w", fiber.ErrServiceUnavailable)
 		}
 		return nil
 	}
+}
+
+// failCode: the status a DefaultErrorHandler would derive from the error a failing handler returns
+// (diagnostic only: names the class of a wrong status in the signature).
+func failCode(beh int, delivered int16) int {
+	switch beh {
+	case behPassBack, behPassBackAfterWrite, behWrapGiven:
+		if delivered > 0 {
+			return int(delivered)
+		}
+	case behFiber4xx:
+		return 451
+	case behFiber5xx:
+		return 502
+	case behWrapFiber:
+		return 503
+	}
+	return 500
 }
 
 func makeRoute(id int) fiber.Handler {
@@ -578,8 +658,6 @@ func makeRoute(id int) fiber.Handler {
 			e = fiber.NewError(418, "short and stout")
 		case srcPlain:
 			e = errors.New("plain failure")
-		case srcEHFail:
-			e = fiber.NewError(409, "conflict")
 		case srcFW404:
 			return c.Next()
 		default:
@@ -785,7 +863,8 @@ func wantKind(want []int) string {
 }
 
 type outKey struct {
-	src    int
+	src    int // -1: failing-handler variants (keyed by behaviour, not by source)
+	beh    int
 	rel    string
 	status int
 }
@@ -836,6 +915,10 @@ func main() {
 		runProgram(r, l, &progs[pi], pi, &fctx, outs)
 	}
 	for k, n := range outs {
+		if k.src < 0 {
+			l.P.Outcomes[fmt.Sprintf("handler-fails-with=%s delivered-to=%s status=%d", behNames[k.beh], k.rel, k.status)] += n
+			continue
+		}
 		l.P.Outcomes[fmt.Sprintf("src=%s delivered-to=%s status=%d", srcNames[k.src], k.rel, k.status)] += n
 	}
 	l.Add("chooser_calls", st.chCalls)
@@ -877,8 +960,14 @@ func runProgram(r *core.Run, l *core.Local, p *program, pi int, fctx *fasthttp.R
 	pol := tierPolicy(r)
 	paths := requestPaths(p)
 	nf := pol.forms(p)
-	cells := make([]caseCell, len(paths)*nf*nSrc)
+	nScen := len(scens)
+	cells := make([]caseCell, len(paths)*nf*nScen)
+	anyInjected := p.RootOwn
+	for _, m := range p.Mounts {
+		anyInjected = anyInjected || m.Own
+	}
 	keys := appListKeys(p)
+	ptext := p.text()
 
 	// requests are prepared once per program
 	reqs := make([]*fasthttp.Request, len(paths)*nf*2)
@@ -896,16 +985,20 @@ func runProgram(r *core.Run, l *core.Local, p *program, pi int, fctx *fasthttp.R
 		}
 	}
 
-	runAll := func(h fasthttp.RequestHandler, dev [2]int, allOrders bool, nfRun int) {
+	runAll := func(h fasthttp.RequestHandler, dev [2]int, allOrdersFull bool, nfRun int, onlyFull bool) {
 		for i := range paths {
 			for f := 0; f < nfRun; f++ {
-				for s := 0; s < nSrc; s++ {
-					cell := &cells[(i*nf+f)*nSrc+s]
+				for s, sc := range scens {
+					if !sc.full && (onlyFull || !anyInjected) {
+						continue // no injected handler anywhere: the behaviour dimension is void
+					}
+					allOrders := allOrdersFull && (sc.full || len(p.Mounts) <= 2)
+					cell := &cells[(i*nf+f)*nScen+s]
 					req := reqs[(i*nf+f)*2]
-					if s == srcFW405 {
+					if sc.src == srcFW405 {
 						req = reqs[(i*nf+f)*2+1]
 					}
-					st.src = s
+					st.src, st.beh = sc.src, sc.beh
 					st.reqDig, st.reqRad = st.reqDig[:0], st.reqRad[:0]
 					for {
 						st.got, st.gotErr, st.raised, st.raiser, st.reqPos = st.got[:0], nil, nil, -1, 0
@@ -949,6 +1042,18 @@ func runProgram(r *core.Run, l *core.Local, p *program, pi int, fctx *fasthttp.R
 						if st.reqPos > maxFullOrderChoices {
 							l.Add("evaluations_under_capped_orders", 1)
 						}
+						if sc.beh != behOK && len(st.got) > 0 {
+							l.Add("evaluations_with_failing_error_handler", 1)
+							if fc := failCode(sc.beh, code); fc != 500 {
+								l.Add("evaluations_failing_handler_returns_fiber_error_with_code_other_than_500", 1)
+							}
+							if st.got[0] > 0 {
+								l.Add("evaluations_failing_handler_of_mounted_app", 1)
+							}
+							if p.CustomCtx {
+								l.Add("evaluations_failing_handler_custom_ctx_funnel", 1)
+							}
+						}
 						if !allOrders || !nextOrder() {
 							break
 						}
@@ -966,7 +1071,7 @@ func runProgram(r *core.Run, l *core.Local, p *program, pi int, fctx *fasthttp.R
 	st.devK, st.devAlt = -1, 0
 	h := build(p)
 	bldRad := append([]int(nil), st.bldRad...)
-	runAll(h, [2]int{-1, 0}, true, nf)
+	runAll(h, [2]int{-1, 0}, true, nf, false)
 	l.Add("builds", 1)
 	if p.Deep {
 		l.Add("deep_programs", 1)
@@ -980,7 +1085,7 @@ func runProgram(r *core.Run, l *core.Local, p *program, pi int, fctx *fasthttp.R
 			for alt := 1; alt < n; alt++ {
 				st.devK, st.devAlt = k, alt
 				h := build(p)
-				runAll(h, [2]int{k, alt}, pol.devOrders(p), 1) // URL form is orthogonal to the mount.go loops: origin-form only
+				runAll(h, [2]int{k, alt}, pol.devOrders(p), 1, true) // URL form is orthogonal to the mount.go loops: origin-form only
 				l.Add("builds", 1)
 				l.Add("builds_with_mount_go_deviation", 1)
 			}
@@ -1006,8 +1111,11 @@ func runProgram(r *core.Run, l *core.Local, p *program, pi int, fctx *fasthttp.R
 			}
 		}
 		for f := 0; f < nf; f++ {
-			for s := 0; s < nSrc; s++ {
-				cell := &cells[(i*nf+f)*nSrc+s]
+			for s, sc := range scens {
+				cell := &cells[(i*nf+f)*nScen+s]
+				if cell.evals == 0 {
+					continue // variant not run for this program (see scen)
+				}
 				l.Add("evaluations", int64(cell.evals))
 				l.Add("cases", 1)
 				if competing >= 1 || partial {
@@ -1029,10 +1137,12 @@ func runProgram(r *core.Run, l *core.Local, p *program, pi int, fctx *fasthttp.R
 				if dup {
 					l.Add("unspecified_skipped", 1) // two apps mounted at the very same full prefix: identity of the winner not judged
 				}
-				cs := map[string]any{"program": p.text(), "mounts": p.Mounts, "request": map[string]any{"path": path, "url_form": formNames[f], "method": map[bool]string{true: "POST", false: "GET"}[s == srcFW405]},
-					"error_source": srcNames[s], "construction_order": p.orderKind(), "expected_handler": wantText(want), "handlerless_mounts_that_are_string_prefixes_of_the_path": shadowers(p, path, want)}
-				if (pi%211 == 0 || (p.Deep && pi%499 == 0)) && i == len(paths)/2 && f == 0 && s == pi%nSrc {
-					l.Sample(map[string]any{"case": cs, "orders_explored": cell.evals, "observed": cell.seen[0].o.view()})
+				cs := func() map[string]any {
+					return map[string]any{"program": ptext, "mounts": p.Mounts, "request": map[string]any{"path": path, "url_form": formNames[f], "method": map[bool]string{true: "POST", false: "GET"}[sc.src == srcFW405]},
+						"error_source": srcNames[sc.src], "injected_error_handlers": behNames[sc.beh], "construction_order": p.orderKind(), "expected_handler": wantText(want), "handlerless_mounts_that_are_string_prefixes_of_the_path": shadowers(p, path, want)}
+				}
+				if (pi%211 == 0 || (p.Deep && pi%499 == 0)) && i == len(paths)/2 && f == 0 && s == pi%nScen {
+					l.Sample(map[string]any{"case": cs(), "orders_explored": cell.evals, "observed": cell.seen[0].o.view()})
 				}
 				for k := range cell.seen {
 					o := &cell.seen[k].o
@@ -1047,7 +1157,11 @@ func runProgram(r *core.Run, l *core.Local, p *program, pi int, fctx *fasthttp.R
 					} else if want[0] == 0 && !p.RootOwn {
 						r0 = "expected-root-default"
 					}
-					outs[outKey{s, r0, int(o.status)}] += int64(cell.seen[k].orders)
+					if sc.beh == behOK {
+						outs[outKey{sc.src, 0, r0, int(o.status)}] += int64(cell.seen[k].orders)
+					} else {
+						outs[outKey{-1, sc.beh, r0, int(o.status)}] += int64(cell.seen[k].orders)
+					}
 				}
 				if len(cell.seen) > 1 {
 					// determinism: the choice must not depend on any iteration order
@@ -1077,14 +1191,14 @@ func runProgram(r *core.Run, l *core.Local, p *program, pi int, fctx *fasthttp.R
 					sort.Strings(ks)
 					sig := fmt.Sprintf("choice-depends-on-map-order loop=%s want=%s seen={%s}", loop, wantKind(want), strings.Join(ks, ","))
 					l.Violate(sig, "the error handler that receives the error depends on Go map iteration order (two orders of the same program and request give different handlers)",
-						cs,
+						cs(),
 						map[string]any{"order_A": map[string]any{"ErrorHandler_appList_order": orderText(keys, a.order), "mount_go_deviation": devText(a.dev), "result": a.o.view()},
 							"order_B":          map[string]any{"ErrorHandler_appList_order": orderText(keys, b.order), "mount_go_deviation": devText(b.dev), "result": b.o.view()},
 							"distinct_results": len(cell.seen)},
 						"identical result under every iteration order: "+wantText(want))
 					continue
 				}
-				judge(l, p, path, s, want, dup, cell, &cell.seen[0].o, cs)
+				judge(l, p, path, sc, want, dup, cell, &cell.seen[0].o, cs)
 			}
 		}
 	}
@@ -1126,7 +1240,8 @@ func describeGot(p *program, o *outcome, path string, want []int) string {
 }
 
 // judge applies the oracle to the single (order-independent) outcome of a case.
-func judge(l *core.Local, p *program, path string, s int, want []int, dup bool, cell *caseCell, o *outcome, cs map[string]any) {
+func judge(l *core.Local, p *program, path string, sc scen, want []int, dup bool, cell *caseCell, o *outcome, mkcs func() map[string]any) {
+	s := sc.src
 	src := srcNames[s]
 	// the error the chain returned
 	expCode, expMsg := 0, ""
@@ -1154,7 +1269,7 @@ func judge(l *core.Local, p *program, path string, s int, want []int, dup bool, 
 		if o.got[0] == o.got[1] {
 			kind = "same-handler-twice"
 		}
-		l.Violate(fmt.Sprintf("delivered-more-than-once %s src=%s", kind, src), "one error was delivered to injected error handlers more than once", cs, view, "exactly one delivery to "+wantText(want))
+		l.Violate(fmt.Sprintf("delivered-more-than-once %s src=%s", kind, src), "one error was delivered to injected error handlers more than once", mkcs(), view, "exactly one delivery to "+wantText(want))
 		return
 	}
 	if dup {
@@ -1164,22 +1279,22 @@ func judge(l *core.Local, p *program, path string, s int, want []int, dup bool, 
 		// root application's handler is the DefaultErrorHandler
 		if o.ngot != 0 {
 			l.Violate(fmt.Sprintf("wrong-handler want=root got=%s", rel(p, int(o.got[0]), path, want)),
-				"the error was delivered to the wrong application's handler", cs, view, "root application's (default) handler: status "+strconv.Itoa(expCode))
+				"the error was delivered to the wrong application's handler", mkcs(), view, "root application's (default) handler: status "+strconv.Itoa(expCode))
 			return
 		}
 		// default handler: status of the error value becomes the response status
 		if int(o.status) != expCode {
-			l.Violate(fmt.Sprintf("default-handler-status src=%s got=%d want=%d", src, o.status, expCode), "under the default handler the response status is not the status of the error value", cs, view, expCode)
+			l.Violate(fmt.Sprintf("default-handler-status src=%s got=%d want=%d", src, o.status, expCode), "under the default handler the response status is not the status of the error value", mkcs(), view, expCode)
 			return
 		}
 		if !strings.Contains(o.body, expMsg) && s != srcFW404 && s != srcFW405 {
-			l.Violate("default-handler-body src="+src, "default handler response does not carry the error text (was another error delivered?)", cs, view, expMsg)
+			l.Violate("default-handler-body src="+src, "default handler response does not carry the error text (was another error delivered?)", mkcs(), view, expMsg)
 		}
 		return
 	}
 	if o.ngot == 0 {
 		l.Violate(fmt.Sprintf("wrong-handler want=%s got=%s", wantKind(want), describeGot(p, o, path, want)),
-			"no configured handler received the error (a default handler answered) although a configured handler is in scope", cs, view, wantText(want))
+			"no configured handler received the error (a default handler answered) although a configured handler is in scope", mkcs(), view, wantText(want))
 		return
 	}
 	g := int(o.got[0])
@@ -1189,30 +1304,38 @@ func judge(l *core.Local, p *program, path string, s int, want []int, dup bool, 
 	}
 	if !ok {
 		l.Violate(fmt.Sprintf("wrong-handler want=%s got=%s", wantKind(want), rel(p, g, path, want)),
-			"the error was delivered to the wrong application's handler", cs, view, wantText(want))
+			"the error was delivered to the wrong application's handler", mkcs(), view, wantText(want))
 		return
 	}
 	// the delivered error is the error the chain returned
 	if cell.raised != nil && !o.errSame {
-		l.Violate("delivered-error-differs src="+src, "the handler received a different error value than the one the chain returned", cs, view, expMsg)
+		l.Violate("delivered-error-differs src="+src, "the handler received a different error value than the one the chain returned", mkcs(), view, expMsg)
 		return
 	}
 	if cell.raised == nil && int(o.errCode) != expCode {
-		l.Violate(fmt.Sprintf("framework-error-code src=%s got=%d want=%d", src, o.errCode, expCode), "framework error delivered with an unexpected code", cs, view, expCode)
+		l.Violate(fmt.Sprintf("framework-error-code src=%s got=%d want=%d", src, o.errCode, expCode), "framework error delivered with an unexpected code", mkcs(), view, expCode)
 		return
 	}
-	if s == srcEHFail {
+	if sc.beh != behOK {
+		// a failing error handler yields a 500 (whatever it fails with; the body is not specified)
 		if o.status != 500 {
 			gotS := strconv.Itoa(int(o.status))
-			if int(o.status) == 520+g {
+			switch {
+			case int(o.status) == 520+g:
 				gotS = "status-written-by-the-failing-handler"
+			case int(o.status) == failCode(sc.beh, o.errCode):
+				gotS = "code-of-the-error-the-handler-returned"
 			}
-			l.Violate("failing-handler-status got="+gotS, "the error handler returned an error but the response status is not 500", cs, view, 500)
+			hk := "mount"
+			if g == 0 {
+				hk = "root"
+			}
+			l.Violate(fmt.Sprintf("failing-handler-status handler=%s fails-with=%s got=%s", hk, behNames[sc.beh], gotS), "the error handler returned an error but the response status is not 500", mkcs(), view, 500)
 		}
 		return
 	}
 	if int(o.status) != 520+g || !strings.HasPrefix(o.body, "EH"+strconv.Itoa(g)+"|") {
-		l.Violate("response-not-from-selected-handler src="+src, "exactly one injected handler ran but the response is not the one it wrote (a second, uncounted delivery overwrote it)", cs, view, fmt.Sprintf("status %d body EH%d|...", 520+g, g))
+		l.Violate("response-not-from-selected-handler src="+src, "exactly one injected handler ran but the response is not the one it wrote (a second, uncounted delivery overwrote it)", mkcs(), view, fmt.Sprintf("status %d body EH%d|...", 520+g, g))
 	}
 }
 
@@ -1231,6 +1354,11 @@ func finish(r *core.Run, progs []program, maxMounts int) {
 	if c["deep_programs_top_down"] == 0 || c["evaluations_deep_path_under_innermost_mount"] == 0 || c["evaluations_path_under_partial_prefix_outside_every_mount"] == 0 {
 		core.Fatal("vacuous: deep mount trees / partial-prefix paths were not exercised")
 	}
+	if c["evaluations_failing_handler_returns_fiber_error_with_code_other_than_500"] == 0 || c["evaluations_failing_handler_of_mounted_app"] == 0 || c["evaluations_failing_handler_custom_ctx_funnel"] == 0 {
+		if len(r.P.Violations) == 0 {
+			core.Fatal("vacuous: failing error handlers (returning *fiber.Error values, mounted apps, CustomCtx funnel) were not exercised")
+		}
+	}
 	if !r.Quick() && c["evaluations_under_capped_orders"] == 0 {
 		core.Fatal("vacuous: no request consulted more than %d owned choices (5-entry appList expected in thorough)", maxFullOrderChoices)
 	}
@@ -1244,9 +1372,10 @@ func finish(r *core.Run, progs []program, maxMounts int) {
 		Coverage: map[string]any{
 			"evaluations":         c["evaluations"],
 			"distinct_nontrivial": c["nontrivial"],
-			"rule": fmt.Sprintf("full product: %d programs (every set of <=%d mounts over root prefixes %v, children of one mount with relative prefixes %v, each sub-app with/without own ErrorHandler, nested Use before/after the parent is mounted, root with default/custom handler, with/without root catch-all, DefaultCtx funnel / CustomCtx funnel; plus DEEP trees: every chain root->m0->m1->m2 with prefixes from %v (two nesting levels below a mount; thorough: plus one more mount off the root, m0 or m1), built top-down (parents mounted first, descendants left to the start-up pass appendSubAppLists) and bottom-up (thorough: every order of the chain's Use calls)) x request paths {each alphabet prefix, each full mount prefix, each PARTIAL prefix of a nested mount = its chain of relative prefixes with some ancestors dropped (where a sub-app registered under a truncated path would answer), each +\"/x\", /apix, /other; deep trees also full prefix+\"x/x\"} x URL forms %v x %d error sources %v x every permutation of the appList range in App.ErrorHandler (chooser driven by an odometer; all n! orders while a request consults <=%d owned choices = n<=4 map entries; with 5 entries (thorough 4-mount deep trees) the 46 of 120 orders with <=%d non-default picks, which still realise every relative order of any three entries) x {default, each single non-default choice} in the map ranges of mount.go; one evaluation = one request under one iteration order; non-trivial = at least one mount prefix is a string prefix of the request path (the selection loop has something to decide) or the path lies under a partial prefix of a nested mount (the scope clause has something to refute). %s",
-				len(progs), maxMounts, prefixes, nestedRel, deepAlpha, formNames, nSrc, srcNames, maxFullOrderChoices, maxOrderDeviations, pol),
+			"rule": fmt.Sprintf("full product: %d programs (every set of <=%d mounts over root prefixes %v, children of one mount with relative prefixes %v, each sub-app with/without own ErrorHandler, nested Use before/after the parent is mounted, root with default/custom handler, with/without root catch-all, DefaultCtx funnel / CustomCtx funnel; plus DEEP trees: every chain root->m0->m1->m2 with prefixes from %v (two nesting levels below a mount; thorough: plus one more mount off the root, m0 or m1), built top-down (parents mounted first, descendants left to the start-up pass appendSubAppLists) and bottom-up (thorough: every order of the chain's Use calls)) x request paths {each alphabet prefix, each full mount prefix, each PARTIAL prefix of a nested mount = its chain of relative prefixes with some ancestors dropped (where a sub-app registered under a truncated path would answer), each +\"/x\", /apix, /other; deep trees also full prefix+\"x/x\"} x URL forms %v x %d error sources %v x %d behaviours of the injected error handlers %v (the same behaviour for the root's and every mounted app's handler: it answers, or it FAILS = returns non-nil: a plain error / the very error it was given / a fresh *fiber.Error 451 / fiber.ErrBadGateway / an error wrapping the given one / an error wrapping fiber.ErrServiceUnavailable, without writing or after having written a response; judged: still exactly one delivery to the selected handler and status 500; a panicking handler is not covered by the statement and not run; the answering handler and one failing variant are explored in full, the other failing variants under the default mount.go order, every ErrorHandler order in programs with <=2 mounts, default order in larger ones, and only in programs that inject a handler) x every permutation of the appList range in App.ErrorHandler (chooser driven by an odometer; all n! orders while a request consults <=%d owned choices = n<=4 map entries; with 5 entries (thorough 4-mount deep trees) the 46 of 120 orders with <=%d non-default picks, which still realise every relative order of any three entries) x {default, each single non-default choice} in the map ranges of mount.go; one evaluation = one request under one iteration order; non-trivial = at least one mount prefix is a string prefix of the request path (the selection loop has something to decide) or the path lies under a partial prefix of a nested mount (the scope clause has something to refute). %s",
+				len(progs), maxMounts, prefixes, nestedRel, deepAlpha, formNames, nSrc, srcNames, nBeh, behNames, maxFullOrderChoices, maxOrderDeviations, pol),
 			"bounds": map[string]any{"max_mounts": maxMounts, "max_mounts_deep_trees": map[bool]int{true: 3, false: 4}[r.Quick()], "nesting_depth": 2, "programs": len(progs), "deep_programs": c["deep_programs"],
+				"error_sources": nSrc, "error_handler_behaviours": nBeh, "source_x_behaviour_scenarios": len(scens),
 				"max_applist_entries": map[bool]int{true: 4, false: 5}[r.Quick()], "all_orders_up_to_applist_entries": maxFullOrderChoices + 1, "max_order_deviations_beyond": maxOrderDeviations,
 				"max_orders_per_request": map[bool]int{true: 24, false: 46}[r.Quick()], "orders_skipped_by_deviation_cap": c["orders_skipped_by_deviation_cap"], "mount_go_deviations_per_build": 1},
 		},
